@@ -21,6 +21,7 @@ RULES = {
     "C11.R1": lambda ctx: vlqrules.tables(ctx, "C11.R1"),
     "C11.R2w": lambda ctx: vlqrules.writer_shape(ctx, "C11.R2w"),
     "C11.R2r": lambda ctx: vlqrules.reader_shape(ctx, "C11.R2r"),
+    "C11.R3": lambda ctx: vlqrules.wrappers(ctx, "C11.R3"),
     "C11.R4": r4,
 }
 
